@@ -31,17 +31,23 @@ MANIFEST = dict(
          "let definitions and expression statements of the fragment over a growing monomorphic environment, including "
          "re-bound names, runs without unit incompatibility and every global's run-time unit dimension equals its "
          "reported type; a name resolves to its latest binding); these are closed under the global context. "
-         "C01_refuted_exponent: a kernel-computed witness (primitive binary64 floats, port of num-rational's "
-         "approximate_float) that ExpAgree fails for (m^2)^(0.1+0.2): static exponent 3/10, run-time "
-         "1125899906842624/3752999689475413, and the run-time `+` with m^(3/5) is a unit incompatibility (depends on the "
-         "kernel's primitive float/int63 operations only); the static types come from the "
+         "Since the repair of finding C01-exponent-f64 the VM loads to_f64 of the checker's exact exponent and "
+         "converts it back with Ratio::from_f64; Dim/RunFixed.v models that on the kernel's primitive binary64 floats "
+         "(port of num-rational's approximate_float), and C01_expr_agree_fixed_partial / "
+         "C01_program_sound_fixed_partial are the same two statements for that run time WITHOUT the ExpAgree "
+         "hypothesis, under the computable premise exps_rt (every constant exponent survives the f64 round trip; "
+         "not true of all rationals - Example C01_roundtrip_not_total). The former theorem C01_refuted_exponent is "
+         "now the regression Example C01_exponent_regression ((m^2)^(0.1+0.2): f64 evaluation gives "
+         "1125899906842624/3752999689475413, the repaired path gives 3/10 and `+ m^(3/5)` is compatible). These depend on the "
+         "kernel's primitive float/int63 operations only; the static types come from the "
          "solver proved sound in C02_solver_sound. NOT proved: function definitions and calls, generic calls, conditionals, structs, "
          "lists (C01_sound_full : Prop). That part is decided on "
          "every run by an oracle on the real implementation: generated accepted programs (arithmetic with prefixes, "
          "integer/fractional/composite constant exponents, derived units and dimensions, generic and inferred "
          "functions, where-clauses, conditionals, lists) are executed, no IncompatibleUnits-type run-time error may "
-         "occur, and the raw unit of every global (hook) must have the inferred dimension. Four confirmed violation "
-         "classes are open findings (C01-exponent-f64, C01-funref-rebinding, C01-zero-unitless, C01-duplicate-base-unit).",
+         "occur, and the raw unit of every global (hook) must have the inferred dimension. Two confirmed violation "
+         "classes are open findings (C01-zero-unitless, C01-duplicate-base-unit); three are "
+         "repaired (C01-zero-compare, C01-funref-rebinding, C01-exponent-f64) and their witnesses run as regression inputs.",
     design_ref="DESIGN.md §6 C01, §7 #1 #2; design/dim.md",
     note="Trusted: Coq kernel + vm_compute; hand-written model; hooks numbat::verif::dim (raw global value, unit "
          "dimension computed from the unit registry); Python float arithmetic = IEEE f64 for the finding matcher.",
@@ -49,7 +55,7 @@ MANIFEST = dict(
 )
 
 THEOREMS = ["C01_binop_agree_partial", "C01_expr_agree_partial", "C01_program_sound_partial",
-            "C01_refuted_exponent"]
+            "C01_expr_agree_fixed_partial", "C01_program_sound_fixed_partial"]
 # kernel primitives (not axioms) that Print Assumptions lists for the float-exact witness lemma only
 ALLOWED_AXIOMS = ["PrimInt63.sub", "PrimFloat.sub", "PrimFloat.opp", "PrimFloat.of_uint63", "PrimFloat.normfr_mantissa",
                   "PrimFloat.ltb", "PrimFloat.leb", "PrimFloat.mul", "PrimFloat.compare", "PrimFloat.classify",
@@ -275,7 +281,7 @@ def run(chk):
     binary, _ = common.build_harness()
     info = D.translate_prelude(binary)
     proved = chk.prove("Props.C01", THEOREMS,
-                       ["theories/Props/C01.vo", "theories/Props/C02.vo", "theories/Dim/Exec.vo",
+                       ["theories/Props/C01.vo", "theories/Props/C02.vo", "theories/Dim/Exec.vo", "theories/Dim/RunFixed.vo",
                         "theories/Gen/PreludeDims.vo"], allowed=ALLOWED_AXIOMS)
     chk.trusted += [
         "model Dim/Model.v + Dim/Infer.v + Dim/Run.v (hand-written; static side validated by correspondence)",
@@ -361,9 +367,6 @@ def run(chk):
             elif m.get("kind") == "zero-literal-unitless" and f["kind"].startswith("run-time unit") \
                     and f.get("runtime_unit") == "q||D[]" \
                     and re.search(r"(?m)^let %s(: [^=]*)? = 0$" % re.escape(f.get("name", "?")), src):
-                kf = fd
-            elif m.get("kind") == "power-exponent-f64-differs" and sts is not None and f64_exponent_differs(sts) \
-                    and (f["kind"].startswith("run-time unit") or "ncompatible" in f.get("runtime_error", "")):
                 kf = fd
         if kf:
             if kf["id"] not in hits:
